@@ -14,6 +14,9 @@ CLASS_TABLE = ["patch-x", "patch-local-x", "patch-x.orig", "patch-x.rej", "patch
                "patch-x/", "patch-x/.", "patch-x/..", "", "/", ".", "..", "patch-\xe9", "emul-linux-x-patch-1~", "patch-local", "patch-local-", ".orig", "~",
                # '.tar.' must be followed by a further suffix; '.tar', '.target', '.tar_gz', 'tar.' alone do not exempt a patch
                "patch-mk_build.target.mk", "patch-dist_foo.tar", "emul-linux-patch-x.tar_gz", "patch-a.tar", "patch-a.tar.", "patch-a.tar.gz", "patch-atar.gz", "patch-.tar.", "patch-a.TAR.gz",
+               # every exemption is positional: 'patch-local-' only as a prefix, '.orig' / '.rej' / '~' only as a suffix
+               "patch-src_dispatch-local-queue.c", "emul-linux-patch-local-rules", "patch-xpatch-local-y", "patch-a-patch-local-", "dir/patch-xpatch-local-y",
+               "patch-a.orig.c", "patch-a.rej.c", "patch-a~b", "patch-.orig-x", "emul-x-patch-a.orig.c", "patch-local-/patch-x",
                "emul-linux-patch-2.7.6.tar.xz", "emul-patch-aa", "emul--patch-", "emul-patch", "patch-a.orig.gz", "patch-a.rej~", "patch-a~.gz"]
 
 
